@@ -186,12 +186,17 @@ class FnEffects:
     """flow-insensitive effect analysis of one function: which of the two structures (the dict's own storage / the
     linked list with its cell index, i.e. every instance attribute) it may write, and which other functions it calls"""
 
-    def __init__(self, fn, method_names, module_funcs, state_attrs=None):
+    def __init__(self, fn, method_names, module_funcs, state_attrs=None, is_method=True):
         self.fn, self.methods, self.funcs, self.state = fn, method_names, module_funcs, state_attrs
-        self.taint = {}          # local name -> set of D / L
+        self.taint = {}          # local name -> set of D / L / 'P:<parameter name>'
         self.alias = {}          # local name -> ('super', m) | ('self', m) | ('meth', taint, attr) | ('superobj',)
         self.writes = set()
-        self.calls = set()       # ('self', m) | ('func', f)
+        self.calls = set()       # (('self', m) | ('func', f), positional argument taints, keyword argument taints)
+        a = fn.args
+        params = [x.arg for x in a.posonlyargs + a.args]
+        self.params = params[1:] if is_method else params           # without self / cls
+        for name in self.params + [x.arg for x in a.kwonlyargs] + [x.arg for x in (a.vararg, a.kwarg) if x is not None]:
+            self.taint[name] = {'P:' + name}                          # symbolic: whatever the caller passes here
         for _ in range(4):       # a few rounds: names may be used before the assignment that taints them (loops)
             self.visit_body(fn.body)
 
@@ -214,25 +219,34 @@ class FnEffects:
             if isinstance(e.slice, ast.Slice):
                 return set()                      # a slice of a list is a copy
             if _is_self(e.value):
-                self.calls.add(('self', '__getitem__'))
+                self.calls.add((('self', '__getitem__'), (), ()))
                 return set()
             return self.t(e.value)
         if isinstance(e, ast.Call):
             f = e.func
-            for a in list(e.args) + [k.value for k in e.keywords]:
-                self.t(a)                          # (records the self-calls inside arguments)
+            argt = tuple(frozenset(self.t(a)) for a in e.args)                    # (records the self-calls inside, too)
+            kwt = tuple(sorted((k.arg or '**', frozenset(self.t(k.value))) for k in e.keywords))
             if isinstance(f, ast.Name):
                 al = self.alias.get(f.id)
                 if al:
-                    return self.call_alias(al)
+                    return self.call_alias(al, argt, kwt)
                 if f.id in self.funcs:
-                    self.calls.add(('func', f.id))
-                    return set().union(*[self.t(a) for a in e.args]) if e.args else set()
+                    self.calls.add((('func', f.id), argt, kwt))
+                    return set().union(*argt) if argt else set()
                 if f.id in FRESH:
                     return set()
-                return set().union(*[self.t(a) for a in e.args]) if e.args else set()
+                return set().union(*argt) if argt else set()
             if isinstance(f, ast.Attribute):
-                return self.call_alias(self.alias_of(f))
+                al = self.alias_of(f)
+                if al[0] == 'super' and al[1] in ('__setitem__', 'setdefault') and len(e.args) >= 2:
+                    # the dict's values are the per-key LISTS: storing an object that came in as an argument (not a new
+                    # list display / copy around it) makes the dictionary share a container with its caller
+                    x = e.args[-1]
+                    if not isinstance(x, (ast.List, ast.Tuple, ast.ListComp)):
+                        self.writes |= {'K' + p for p in argt[-1] if p.startswith('P:')}
+                        if al[1] == 'setdefault':
+                            return self.call_alias(al, argt, kwt) | set(argt[-1])
+                return self.call_alias(al, argt, kwt)
             return set()
         if isinstance(e, (ast.ListComp, ast.SetComp, ast.GeneratorExp, ast.DictComp)):
             for g in e.generators:
@@ -286,13 +300,13 @@ class FnEffects:
             return ('super', f.attr)              # dict.M(self, ...)
         return ('meth', frozenset(self.t(v)), f.attr)
 
-    def call_alias(self, al):
+    def call_alias(self, al, argt=(), kwt=()):
         if al[0] == 'super':
             if al[1] in DICT_MUT:
                 self.writes.add(D)
             return {D} if al[1] in DICT_INNER else set()
         if al[0] == 'self':
-            self.calls.add(al)
+            self.calls.add((al, argt, kwt))
             return set()
         if al[0] == 'meth':
             if al[2] in MUTATING:
@@ -319,7 +333,7 @@ class FnEffects:
                 self.store(x)
         elif isinstance(target, ast.Subscript):
             if _is_self(target.value):
-                self.calls.add(('self', '__setitem__'))       # (or __delitem__: the caller says which)
+                self.calls.add((('self', '__setitem__'), (), ()))       # (or __delitem__: the caller says which)
                 return
             self.writes |= self.t(target.value)
             if isinstance(target.slice, ast.Name) and target.slice.id in LINK_NAMES:
@@ -376,13 +390,13 @@ class FnEffects:
         elif isinstance(s, ast.Delete):
             for tg in s.targets:
                 if isinstance(tg, ast.Subscript) and _is_self(tg.value):
-                    self.calls.add(('self', '__delitem__'))
+                    self.calls.add((('self', '__delitem__'), (), ()))
                 elif not isinstance(tg, ast.Name):
                     self.store(tg)
         elif isinstance(s, (ast.For, ast.AsyncFor)):
             it = s.iter
             if _is_self(it):
-                self.calls.add(('self', '__iter__'))
+                self.calls.add((('self', '__iter__'), (), ()))
             self.bind(s.target, self.t(it))
             self.visit_body(s.body)
             self.visit_body(s.orelse)
@@ -468,22 +482,50 @@ def class_effects(path, clsname='OrderedMultiDict'):
     for name, fn in meths.items():
         fx[('self', name)] = FnEffects(fn, set(meths), set(funcs), state)
     for name, fn in funcs.items():
-        fx[('func', name)] = FnEffects(fn, set(), set(funcs))
+        fx[('func', name)] = FnEffects(fn, set(), set(funcs), is_method=False)
     eff = {k: set(v.writes) for k, v in fx.items()}
+
+    def at_call(callee, argt, kwt):
+        """the callee's effects seen from the call site: a write through one of ITS parameters is a write through
+        whatever the caller passed there"""
+        out = set()
+        kw = dict(kwt)
+        for x in eff[callee]:
+            if not x.startswith(('P:', 'KP:')):
+                out.add(x)
+                continue
+            keeps = x.startswith('K')
+            name = x[3:] if keeps else x[2:]
+            ps = fx[callee].params
+            got = set()
+            if name in ps and ps.index(name) < len(argt):
+                got |= argt[ps.index(name)]
+            elif name in kw:
+                got |= kw[name]
+            elif '**' in kw:
+                got |= kw['**']
+            elif name not in ps:                 # *args / **kwargs of the callee: anything the caller passed
+                got |= set().union(*argt) if argt else set()
+                for v in kw.values():
+                    got |= v
+            out |= {'K' + g for g in got if g.startswith('P:')} if keeps else got
+        return out
     changed = True
     while changed:
         changed = False
         for k, v in fx.items():
-            for c in v.calls:
-                if c in eff and not eff[c] <= eff[k]:
-                    eff[k] |= eff[c]
-                    changed = True
+            for c, argt, kwt in v.calls:
+                if c in eff:
+                    new = at_call(c, argt, kwt)
+                    if not new <= eff[k]:
+                        eff[k] |= new
+                        changed = True
     rows = []
     for name in meths:
         if name == '__new__' or (name.startswith('_') and not name.startswith('__')):
             continue
         e = eff[('self', name)]
-        rows.append((name, D in e, L in e))
+        rows.append((name, D in e, L in e, any(x.startswith('P:') for x in e), any(x.startswith('KP:') for x in e)))
     inherited = [m for m in DICT_MUT if m not in meths]
     return rows, inherited, sorted(state or [])
 
@@ -616,15 +658,18 @@ class C01(Property):
                  'namespace Generated.C01', '',
                  '/-- one public method: may it write the dict\'s own storage / the linked list with its cell index? -/',
                  'structure Method where', '  file : String', '  name : String', '  dictW : Bool', '  llW : Bool',
+                 '  argW : Bool   -- may it write THROUGH one of its arguments (change an object the caller passed in)?',
+                 '  keepsArg : Bool   -- may it store an argument object itself as a per-key value list?',
                  'deriving Repr, DecidableEq', '', 'def methods : List Method := [']
         rows, inh, states = [], [], []
         for mod in ('dictutils', 'urlutils'):
             r, i, st = class_effects(os.path.join(common.REPO, 'boltons', mod + '.py'))
-            rows += [(mod, n, d, l) for n, d, l in r]
+            rows += [(mod, n, d, l, a, kp) for n, d, l, a, kp in r]
             inh += [(mod, m) for m in i]
             states.append('%s: %s' % (mod, ', '.join(st) or '(every instance attribute)'))
-        lines += ['  ⟨"%s", "%s", %s, %s⟩%s' % (f, n, str(d).lower(), str(l).lower(), ',' if j < len(rows) - 1 else '')
-                  for j, (f, n, d, l) in enumerate(rows)]
+        lines += ['  ⟨"%s", "%s", %s, %s, %s, %s⟩%s' % (f, n, str(d).lower(), str(l).lower(), str(a).lower(), str(kp).lower(),
+                                                       ',' if j < len(rows) - 1 else '')
+                  for j, (f, n, d, l, a, kp) in enumerate(rows)]
         lines += [']', '', '/-- dict mutators the class does not override (they would change the dict behind the list\'s back) -/',
                   'def inheritedMutators : List (String × String) := [%s]' % ', '.join('("%s", "%s")' % p for p in inh), '',
                   '-- instance attributes counted as the linked list / cell index: ' + '; '.join(states), '',
